@@ -19,7 +19,7 @@ RULE = ('Part api: Hypothesis-generated NlaIII / scCHIC molecules on a random re
         'tags); Molecule.deduplicate_majority(max_N_span in {None, 0, 5, 50}) and write_pysam(consensus=True) are checked '
         'with a validity predicate: aligned blocks = covered positions, lengths of sequence / qualities / CIGAR agree, '
         'the reference reconstructed from (sequence, CIGAR, MD) equals the true reference, decidable base calls, gaps '
-        'inside a record <= max_N_span, tags SM RX DS TF. Part cli: simulated libraries through --consensus '
+        'inside a record <= max_N_span, tags SM RX DS TF. Part deep: molecules of 31..70 single-read fragments with one or two discordant observations at planted positions (likelihood arithmetic at 32 and more observations). Part cli: simulated libraries through --consensus '
         '--multiprocess with a reference FASTA. Non-trivial: molecule with >=1 coverage gap and >=1 conflicting position.')
 ASSUMPTIONS = ['base calls are asserted only where every observation has phred >= 20: unanimous -> that base; two bases '
                'with the same number of observations all at one identical quality -> N; a base with more observations, each '
@@ -28,7 +28,7 @@ ASSUMPTIONS = ['base calls are asserted only where every observation has phred >
 CONTIG = 'chrC'
 
 
-def strategy():
+def strategy(deep=False):
     @st.composite
     def case(draw):
         L = draw(st.integers(320, 700))
@@ -38,7 +38,7 @@ def strategy():
         site = draw(st.integers(60, L - 150)) if not rev else draw(st.integers(150, L - 60))
         if method == 'nla':
             ref = ref[:site] + 'CATG' + ref[site + 4:]
-        nf = draw(st.sampled_from([1, 1, 2, 3, 4, 6]))
+        nf = draw(st.sampled_from([1, 1, 2, 3, 4, 6])) if not deep else draw(st.sampled_from([31, 32, 33, 34, 48, 64, 70]))
         frags = []
         errseed = draw(st.integers(0, 10 ** 6))
         conflict_q = draw(st.sampled_from(['equal', 'unequal', 'none']))
@@ -49,12 +49,21 @@ def strategy():
             gap = {'near': draw(st.integers(1, 8)), 'far': draw(st.integers(20, 90)), 'overlap': -draw(st.integers(1, 10)), 'none': 0, 'nested': 0}[r2]
             frags.append({'l1': l1, 'cig1': cig1, 'r2': r2, 'gap': gap, 'l2': draw(st.integers(15, 40)),
                           'q': draw(st.sampled_from([20, 30, 30, 40]))})
+            if deep:
+                frags[-1].update(cig1='M', r2='none', gap=0, q=30)
         # planted conflicts: at up to 3 positions near the cut every fragment shows a drawn base at a drawn quality
         # (three different bases, losers before the winner, equal counts ...)
         plant = {}
         for j in draw(st.lists(st.integers(0, 4), max_size=3, unique=True)):
             pos = site + 5 + j if not rev else site - 5 - j
-            kind = draw(st.sampled_from(['losers_first', 'random', 'tie']))
+            kind = draw(st.sampled_from(['losers_first', 'random', 'tie'])) if not deep else 'deep'
+            if kind == 'deep':
+                x, y = draw(st.permutations('ACGT'))[:2]
+                bases = [x] * nf
+                for k_ in draw(st.lists(st.integers(0, nf - 1), min_size=1, max_size=2, unique=True)):
+                    bases[k_] = y
+                plant[str(pos)] = [bases, [30] * nf]
+                continue
             if kind == 'losers_first':
                 x, y, z = draw(st.permutations('ACGT'))[:3]
                 bases = [x, y] + [z] * max(1, nf - 2)
@@ -486,5 +495,6 @@ def parts(tier):
     t = tier == 'thorough'
     return [
         Part('api', eval_api, strategy=strategy, examples=250000 if t else 2000),
+        Part('deep', eval_api, strategy=lambda: strategy(deep=True), examples=3000 if t else 48),
         Part('cli', eval_cli, strategy=cli_strategy, examples=3000 if t else 48),
     ]
